@@ -260,7 +260,7 @@ func init() {
 			if len(parts) > 1 {
 				re = "(re.union " + strings.Join(parts, " ") + ")"
 			}
-			p.lazy = append(p.lazy, "(str.in_re "+s.e+" (re.* "+re+"))")
+			p.classCons = append(p.classCons, classCon{s, "(re.* " + re + ")", "alpha:" + re})
 			p.setAlpha(s.e, &allowed)
 		}
 		return nil
@@ -320,7 +320,9 @@ func (i *interpreter) hashHex(s value) value {
 	if !p.declSet[key] {
 		p.declSet[key] = true
 		p.lazy = append(p.lazy, "(str.in_re "+h.e+" ((_ re.loop 64 64) (re.union (re.range \"0\" \"9\") (re.range \"a\" \"f\"))))")
-		p.pc = append(p.pc, "(= (str.len "+h.e+") 64)")
+		p.pc = append(p.pc, "(= (str.len "+h.e+") 64)",
+			"(=> (> (str.len "+tStr(s)+") 0) (not (= "+h.e+" \"e3b0c44298fc1c149afbf4c8996fb92427ae41e4649b934ca495991b7852b855\")))")
+		i.ex.noteAssumption("SHA-256 is an uninterpreted function; the only collision-freeness assumed is that non-empty content does not hash to the digest of the empty string")
 		h.ln = int64(64)
 		var hexs [256]bool
 		for c := '0'; c <= '9'; c++ {
